@@ -62,6 +62,7 @@ def run_prop(prop, tier, n_quick, n_thorough, opt_choices, stat_keys, nontrivial
             if len(samples) < 4:
                 samples.append({"source": rel, "opts": res["opts"], "stats": {k: v for k, v in o["stats"].items() if k.startswith(prop.lower())}, "skipped": o.get("skipped", [])[:3]})
         shutil.rmtree(res["wd"], ignore_errors=True)
+    chk.coverage["sources_by_format"] = {"glyphs": sum(1 for s in srcs if s.endswith(".glyphs")), "designspace_or_ufo": sum(1 for s in srcs if not s.endswith(".glyphs"))}
     chk.coverage.update({"distinct_nontrivial": nontrivial, "rule": rule, "samples": samples,
                          **{k: int(v) for k, v in totals.items() if k.split("_")[0] == prop.lower()}})
     return chk.finish()
